@@ -1,9 +1,14 @@
 #!/bin/bash
-# processes "PROP K" lines appended to /tmp/seed/queue.txt, one at a time
-touch /tmp/seed/queue.txt /tmp/seed/done.txt
+# processes "PROP K" lines of /tmp/seed/queue.txt; several workers can run (claims via mkdir lock)
+mkdir -p /tmp/seed/claims; touch /tmp/seed/queue.txt
 while true; do
-  L=$(comm -23 <(sort -u /tmp/seed/queue.txt) <(sort -u /tmp/seed/done.txt) | head -1)
-  if [ -z "$L" ]; then sleep 20; continue; fi
-  /verif/bin/confirm_seed.sh $L >> /tmp/seed/confirm.log 2>&1
-  echo "$L" >> /tmp/seed/done.txt
+  did=0
+  while read -r P K; do
+    [ -z "$P" ] && continue
+    if mkdir /tmp/seed/claims/$P-$K 2>/dev/null; then
+      /verif/bin/confirm_seed.sh $P $K >> /tmp/seed/confirm.log 2>&1
+      echo "$P $K" >> /tmp/seed/done.txt; did=1; break
+    fi
+  done < /tmp/seed/queue.txt
+  [ $did = 0 ] && sleep 20
 done
